@@ -373,8 +373,10 @@ theorem speed_unit_from_pair_physical : ∀ (d : DistanceUnit) (t : TimeUnit) (u
     SpeedUnit.fromPair d t = .unit u → siSpeed u = siDistance d / siTime t := by
   decide +kernel
 
-/-- `from_str` reads exactly the serde names (`Display` prints them), nothing else -/
-theorem speed_unit_from_str_iff (s : String) (u : SpeedUnit) :
+/-- `from_str` reads exactly the serde names (`Display` prints them), nothing else — OF THE MODEL, which
+answers `none` for every text holding a backslash (the code decodes JSON escapes first: see the header;
+full statement not proved) -/
+theorem speed_unit_from_str_iff_partial (s : String) (u : SpeedUnit) :
     SpeedUnit.fromStr s = some u ↔ s = u.name := by
   constructor
   · intro h
@@ -387,8 +389,12 @@ theorem speed_unit_from_str_iff (s : String) (u : SpeedUnit) :
   · rintro rfl
     cases u <;> decide
 
-/-- `DistanceUnit::from_str` reads exactly the serde names (`Display` prints them), nothing else -/
-theorem distance_unit_from_str_iff (s : String) (u : DistanceUnit) :
+/-- `DistanceUnit::from_str` reads exactly the serde names (`Display` prints them), nothing else — OF THE MODEL, which
+answers `none` for every text holding a backslash.  Full statement (not proved, false as it stands): the
+code accepts exactly the texts whose JSON-unescaped form is a serde name — `string_deserialize` reads
+the text as a JSON string, so `"mile\\u0073"` parses as miles; escapes are not modelled and the harness
+sends none -/
+theorem distance_unit_from_str_iff_partial (s : String) (u : DistanceUnit) :
     unitFromStr DistanceUnit.ofName? s = some u ↔ s = u.name := by
   constructor
   · intro h
@@ -401,8 +407,12 @@ theorem distance_unit_from_str_iff (s : String) (u : DistanceUnit) :
   · rintro rfl
     cases u <;> decide
 
-/-- `TimeUnit::from_str` reads exactly the serde names (`Display` prints them), nothing else -/
-theorem time_unit_from_str_iff (s : String) (u : TimeUnit) :
+/-- `TimeUnit::from_str` reads exactly the serde names (`Display` prints them), nothing else — OF THE MODEL, which
+answers `none` for every text holding a backslash.  Full statement (not proved, false as it stands): the
+code accepts exactly the texts whose JSON-unescaped form is a serde name — `string_deserialize` reads
+the text as a JSON string, so `"mile\\u0073"` parses as miles; escapes are not modelled and the harness
+sends none -/
+theorem time_unit_from_str_iff_partial (s : String) (u : TimeUnit) :
     unitFromStr TimeUnit.ofName? s = some u ↔ s = u.name := by
   constructor
   · intro h
@@ -415,8 +425,12 @@ theorem time_unit_from_str_iff (s : String) (u : TimeUnit) :
   · rintro rfl
     cases u <;> decide
 
-/-- `EnergyUnit::from_str` reads exactly the serde names (`Display` prints them), nothing else -/
-theorem energy_unit_from_str_iff (s : String) (u : EnergyUnit) :
+/-- `EnergyUnit::from_str` reads exactly the serde names (`Display` prints them), nothing else — OF THE MODEL, which
+answers `none` for every text holding a backslash.  Full statement (not proved, false as it stands): the
+code accepts exactly the texts whose JSON-unescaped form is a serde name — `string_deserialize` reads
+the text as a JSON string, so `"mile\\u0073"` parses as miles; escapes are not modelled and the harness
+sends none -/
+theorem energy_unit_from_str_iff_partial (s : String) (u : EnergyUnit) :
     unitFromStr EnergyUnit.ofName? s = some u ↔ s = u.name := by
   constructor
   · intro h
@@ -429,8 +443,12 @@ theorem energy_unit_from_str_iff (s : String) (u : EnergyUnit) :
   · rintro rfl
     cases u <;> decide
 
-/-- `EnergyRateUnit::from_str` reads exactly the serde names (`Display` prints them), nothing else -/
-theorem energy_rate_unit_from_str_iff (s : String) (u : EnergyRateUnit) :
+/-- `EnergyRateUnit::from_str` reads exactly the serde names (`Display` prints them), nothing else — OF THE MODEL, which
+answers `none` for every text holding a backslash.  Full statement (not proved, false as it stands): the
+code accepts exactly the texts whose JSON-unescaped form is a serde name — `string_deserialize` reads
+the text as a JSON string, so `"mile\\u0073"` parses as miles; escapes are not modelled and the harness
+sends none -/
+theorem energy_rate_unit_from_str_iff_partial (s : String) (u : EnergyRateUnit) :
     unitFromStr EnergyRateUnit.ofName? s = some u ↔ s = u.name := by
   constructor
   · intro h
@@ -443,8 +461,12 @@ theorem energy_rate_unit_from_str_iff (s : String) (u : EnergyRateUnit) :
   · rintro rfl
     cases u <;> decide
 
-/-- `GradeUnit::from_str` reads exactly the serde names (`Display` prints them), nothing else -/
-theorem grade_unit_from_str_iff (s : String) (u : GradeUnit) :
+/-- `GradeUnit::from_str` reads exactly the serde names (`Display` prints them), nothing else — OF THE MODEL, which
+answers `none` for every text holding a backslash.  Full statement (not proved, false as it stands): the
+code accepts exactly the texts whose JSON-unescaped form is a serde name — `string_deserialize` reads
+the text as a JSON string, so `"mile\\u0073"` parses as miles; escapes are not modelled and the harness
+sends none -/
+theorem grade_unit_from_str_iff_partial (s : String) (u : GradeUnit) :
     unitFromStr GradeUnit.ofName? s = some u ↔ s = u.name := by
   constructor
   · intro h
@@ -457,8 +479,12 @@ theorem grade_unit_from_str_iff (s : String) (u : GradeUnit) :
   · rintro rfl
     cases u <;> decide
 
-/-- `WeightUnit::from_str` reads exactly the serde names (`Display` prints them), nothing else -/
-theorem weight_unit_from_str_iff (s : String) (u : WeightUnit) :
+/-- `WeightUnit::from_str` reads exactly the serde names (`Display` prints them), nothing else — OF THE MODEL, which
+answers `none` for every text holding a backslash.  Full statement (not proved, false as it stands): the
+code accepts exactly the texts whose JSON-unescaped form is a serde name — `string_deserialize` reads
+the text as a JSON string, so `"mile\\u0073"` parses as miles; escapes are not modelled and the harness
+sends none -/
+theorem weight_unit_from_str_iff_partial (s : String) (u : WeightUnit) :
     unitFromStr WeightUnit.ofName? s = some u ↔ s = u.name := by
   constructor
   · intro h
